@@ -5,6 +5,12 @@ def describe(line_ints, verdict, case_json):
     code, tag, pos = verdict[0], verdict[1], verdict[2]
     d = verdict[3:]
     out = {"branch_tag": tag}
+    step = None
+    if len(line_ints) > 1 and line_ints[1] == 2 and pos >= 0 and d:
+        # history: pos = failing step, diag = the step's own position and diagnostics
+        step, pos, d = pos, d[0], d[1:]
+        out["history_step"] = step
+        out["note"] = "one Sample, backing arrays overwritten in place between the steps; the step is compared with the model on the values current at that step"
     exp = None
     if d:
         if d[0] == 1 and len(d) >= 3:
@@ -18,7 +24,8 @@ def describe(line_ints, verdict, case_json):
     if pos >= 0:
         out["what"] = "Quantile(q) differs from the model"
         try:
-            out["q"] = json.loads(case_json)["qs"][pos]
+            cj = json.loads(case_json)
+            out["q"] = (cj["steps"][step] if step is not None else cj)["qs"][pos]
         except Exception:
             out["q_index"] = pos
         out["theorem"] = "C10_quantile_is_hf8 (unweighted) / C10_weighted_quantile_spec"
